@@ -366,3 +366,81 @@ func VfC18_GlobalEnumPairs() {
 	vfAssert("C18.pairs.func", vfAnd(vfAnd(f2.Linkage == f.Linkage, f2.Preemption == f.Preemption), vfAnd(vfAnd(f2.Visibility == f.Visibility, f2.DLLStorageClass == f.DLLStorageClass), f2.UnnamedAddr == f.UnnamedAddr)))
 	vfAssert("C18.pairs.fixpoint", m2.String() == s)
 }
+
+// VfC18_InstructionFlagSets: fast-math flag sets (one member, every pair of
+// members, all members) on fadd / fcmp / call, and overflow flag sets on add:
+// the set read back from the printed instruction is exactly the set written
+// (`fast` is a member like the others in this IR).
+//
+//vf:unwind 400
+//vf:shards 16
+func VfC18_InstructionFlagSets() {
+	nf := len(hGenM_FastMathFlag)
+	i := vfChoice("first", nf)
+	j := vfChoice("second", nf+2) // nf: none, nf+1: all members
+	var set []enum.FastMathFlag
+	switch {
+	case j == nf+1:
+		set = append(set, hGenM_FastMathFlag...)
+	case j == nf || j == i:
+		set = []enum.FastMathFlag{hGenM_FastMathFlag[i]}
+	default:
+		set = []enum.FastMathFlag{hGenM_FastMathFlag[i], hGenM_FastMathFlag[j]}
+	}
+	m := ir.NewModule()
+	callee := m.NewFunc("g", types.Float)
+	f := m.NewFunc("f", types.Void, ir.NewParam("x", types.Float), ir.NewParam("y", types.I32))
+	b := f.NewBlock("entry")
+	x, y := f.Params[0], f.Params[1]
+	fa := b.NewFAdd(x, x)
+	fa.FastMathFlags = set
+	fc := b.NewFCmp(enum.FPredOLT, x, x)
+	fc.FastMathFlags = set
+	cl := b.NewCall(callee)
+	cl.FastMathFlags = set
+	ad := b.NewAdd(y, y)
+	switch vfChoice("overflow", 4) {
+	case 1:
+		ad.OverflowFlags = []enum.OverflowFlag{enum.OverflowFlagNUW}
+	case 2:
+		ad.OverflowFlags = []enum.OverflowFlag{enum.OverflowFlagNSW}
+	case 3:
+		ad.OverflowFlags = []enum.OverflowFlag{enum.OverflowFlagNUW, enum.OverflowFlagNSW}
+	}
+	b.NewRet(nil)
+	s := m.String()
+	m2, err := ParseString("t.ll", s)
+	vfReach("C18.instruction-flag-sets")
+	vfObserveStr("printed", s)
+	vfAssert("C18.instflags.reparses", err == nil)
+	if err != nil {
+		return
+	}
+	is := m2.Funcs[1].Blocks[0].Insts
+	sameFMF := func(got []enum.FastMathFlag) bool {
+		if len(got) != len(set) {
+			return false
+		}
+		ok := true
+		for _, a := range set {
+			found := false
+			for _, b := range got {
+				if a == b {
+					found = true
+				}
+			}
+			ok = ok && found
+		}
+		return ok
+	}
+	vfAssert("C18.instflags.fadd", sameFMF(is[0].(*ir.InstFAdd).FastMathFlags))
+	vfAssert("C18.instflags.fcmp", sameFMF(is[1].(*ir.InstFCmp).FastMathFlags))
+	vfAssert("C18.instflags.call", sameFMF(is[2].(*ir.InstCall).FastMathFlags))
+	got := is[3].(*ir.InstAdd).OverflowFlags
+	vfAssert("C18.instflags.overflow", len(got) == len(ad.OverflowFlags))
+	for k := range got {
+		if k < len(ad.OverflowFlags) {
+			vfAssert("C18.instflags.overflow", got[k] == ad.OverflowFlags[k])
+		}
+	}
+}
